@@ -8,6 +8,8 @@ rendered Laythe program, joined by TAB).
   kind   := list v,v,..  | tuple v,v,.. | str S | map k=v,.. keys k,k,.. | iter
   values := nil | true | false | <int> | s:<hex>.<hex>...            (strings: code points in hex)
   args   := <int> | f:<neg 0/1>:<mag> | nan | inf | -inf | any value (= not a number)
+  iterator arguments (zip, chain, `bc list|tuple` = List.collect / Tuple.collect): <k> = the iterator variable
+  itK, `v:<anything>` = a value that is not an iterator
 
 `model` runs the branch-for-branch model (`LaytheVerif.Coll.*`), `spec` the plain `List` functions
 (`LaytheVerif.Coll.Spec.*`); the iterator kind exists in `model` only (its Spec is the Python generator
@@ -98,6 +100,47 @@ def errLine (c : ErrClass) : String := "err " ++ c.name
 
 /-! ### list receivers -/
 
+/-- the comparator menu of `sort`; the Laythe text of each is in vlib/props/c11.py (`COMPARATORS`) -/
+def cmpOf (name : String) : Option (Val → Val → CmpOut) :=
+  let sub (f : Int → CmpOut) : Val → Val → CmpOut := fun a c =>
+    match a, c with | .num x, .num y => f (x - y) | _, _ => .raised .runtime
+  match name with
+  | "sub" => some (sub fun d => .num (.int d))                       -- |a, b| a - b
+  | "rsub" => some (sub fun d => .num (.int (-d)))                   -- |a, b| b - a
+  | "half" => some (sub fun d =>                                      -- |a, b| (a - b) / 2
+      if d % 2 = 0 then .num (.int (d / 2)) else .num (.frac (d < 0) (d.natAbs / 2)))
+  | "nil" => some fun _ _ => .notNum                                  -- |a, b| nil
+  | "nan" => some fun _ _ => .num .nan                                -- |a, b| 0/0
+  | "raise" => some fun _ _ => .raised .user                          -- |a, b| { raise Error("boom"); }
+  | "bad2" => some fun a c =>                                         -- raises when 2 is involved, else a - b
+      if a == Val.num 2 || c == Val.num 2 then .raised .user else sub (fun d => .num (.int d)) a c
+  | _ => none
+
+/-- the Spec of `sort`, by another route: a comparator that fails on a pair fails the call as soon as the
+list has two elements of which one provokes it (every element of such a list is compared at least once);
+otherwise the stable merge sort of the library. -/
+def specSort (name : String) (xs : List Val) : Option (Except ErrClass (List Val)) :=
+  let isNum (v : Val) : Bool := match v with | .num _ => true | _ => false
+  let le (a c : Val) : Bool := match a, c with | .num x, .num y => x ≤ y | _, _ => true
+  let ge (a c : Val) : Bool := match a, c with | .num x, .num y => y ≤ x | _, _ => true
+  let nonNum := xs.any (fun v => !isNum v)
+  let arith (le : Val → Val → Bool) : Option (Except ErrClass (List Val)) :=
+    some (if xs.length ≥ 2 && nonNum then .error .runtime else .ok (xs.mergeSort le))
+  match name with
+  | "sub" => arith le
+  | "half" => arith le
+  | "rsub" => arith ge
+  | "nil" => some (if xs.length ≥ 2 then .error .type else .ok xs)
+  | "nan" => some (if xs.length ≥ 2 then .error .type else .ok xs)
+  | "raise" => some (if xs.length ≥ 2 then .error .user else .ok xs)
+  | "bad2" =>
+    let has2 := xs.any (· == Val.num 2)
+    if xs.length < 2 then some (.ok xs)
+    else if has2 && nonNum then none          -- two classes of failure: which comes first is the algorithm's choice
+    else if has2 then some (.error .user)
+    else arith le
+  | _ => none
+
 /-- model engine: state = the raw buffer, or `none` after a write past the allocation -/
 def stepListModel (b : RawVec Val) (op : List String) : Option (String × Option (RawVec Val)) :=
   let fin (b' : RawVec Val) (res : String) := some (res, some b')
@@ -130,9 +173,9 @@ def stepListModel (b : RawVec Val) (op : List String) : Option (String × Option
     let as ← as.mapM parseArg
     match listSlice b as[0]? as[1]? with | .ok xs => fin b (showTop (.list xs)) | .error c => fin b (errLine c)
   | ["rev"] => fin b (showTop (.list (listRev b)))
-  | ["sort"] =>
-    let le (a c : Val) : Bool := match a, c with | .num x, .num y => x ≤ y | _, _ => true
-    fin b (showTop (.list (sortStable le b.toList)))
+  | "sort" :: rest => do
+    let cmp ← cmpOf (rest.headD "sub")
+    match listSort b cmp with | .ok xs => fin b (showTop (.list xs)) | .error c => fin b (errLine c)
   | ["iterlist"] =>
     -- `l = l.iter().list()`: a fresh allocation sized by the size hint
     let it : Iter Val Unit ErrClass := Iter.ofList b.toList
@@ -175,9 +218,10 @@ def stepListSpec (xs : List Val) (op : List String) : Option (String × List Val
       some (match Spec.slice xs s e with | .ok ys => showTop (.list ys) | .error c => errLine c, xs)
     | _, _ => some (errLine .runtime, xs)
   | ["rev"] => some (showTop (.list xs.reverse), xs)
-  | ["sort"] =>
-    let le (a c : Val) : Bool := match a, c with | .num x, .num y => x ≤ y | _, _ => true
-    some (showTop (.list (xs.mergeSort le)), xs)
+  | "sort" :: rest => do
+    match ← specSort (rest.headD "sub") xs with
+    | .ok ys => some (showTop (.list ys), xs)
+    | .error c => some (errLine c, xs)
   | ["iterlist"] => some ("ok", xs)
   | ["slicelist"] => some ("ok", xs)
   | _ => none
@@ -405,8 +449,11 @@ inductive IOp where
   | filter (k : Nat) (f : Cb Val World ErrClass)
   | take (k : Nat) (a : Arg)
   | skip (k : Nat) (a : Arg)
-  | zip (k : Nat) (js : List Nat)
-  | chain (k : Nat) (js : List Nat)
+  /-- `itK.zip(a, b, …)` / `itK.chain(…)`: each argument an iterator variable (`some j`) or another value -/
+  | zip (k : Nat) (js : List (Option Nat))
+  | chain (k : Nat) (js : List (Option Nat))
+  /-- `List.collect(v)` / `Tuple.collect(v)` with a value that is not an iterator -/
+  | badCollect (asTuple : Bool)
   | next (k : Nat)
   | cur (k : Nat)
   | tList (k : Nat) (asTuple : Bool)
@@ -416,6 +463,10 @@ inductive IOp where
   | tFirst (k : Nat)
   | tLast (k : Nat)
   | tLen (k : Nat)
+
+/-- an argument of `zip` / `chain`: an iterator variable `<k>` or `v:<value>` (a value that is not an iterator) -/
+def parseEArg (t : String) : Option (Option Nat) :=
+  if t.startsWith "v:" then some none else t.toNat?.map some
 
 def parseIOp (op : List String) : Option IOp :=
   match op with
@@ -440,8 +491,10 @@ def parseIOp (op : List String) : Option IOp :=
   | ["ad", k, "filter", f] => do some (.filter (← k.toNat?) (← cb1 f))
   | ["ad", k, "take", a] => do some (.take (← k.toNat?) (← parseArg a))
   | ["ad", k, "skip", a] => do some (.skip (← k.toNat?) (← parseArg a))
-  | "ad" :: k :: "zip" :: js => do some (.zip (← k.toNat?) (← js.mapM (·.toNat?)))
-  | "ad" :: k :: "chain" :: js => do some (.chain (← k.toNat?) (← js.mapM (·.toNat?)))
+  | "ad" :: k :: "zip" :: js => do some (.zip (← k.toNat?) (← js.mapM parseEArg))
+  | "ad" :: k :: "chain" :: js => do some (.chain (← k.toNat?) (← js.mapM parseEArg))
+  | ["bc", "list", v] => if v.startsWith "v:" then some (.badCollect false) else none
+  | ["bc", "tuple", v] => if v.startsWith "v:" then some (.badCollect true) else none
   | ["next", k] => do some (.next (← k.toNat?))
   | ["cur", k] => do some (.cur (← k.toNat?))
   | ["t", k, "list"] => do some (.tList (← k.toNat?) false)
@@ -456,10 +509,12 @@ def parseIOp (op : List String) : Option IOp :=
   | ["t", k, "len"] => do some (.tLen (← k.toNat?))
   | _ => none
 
-def getAll (s : ISt) : List Nat → Option (List It)
+/-- the arguments as the signature check sees them; `none` = an unknown variable (a malformed case) -/
+def getAll (s : ISt) : List (Option Nat) → Option (List (EArg Val World ErrClass))
   | [] => some []
-  | j :: js => match s.get j, getAll s js with
-    | some it, some rest => some (it :: rest)
+  | none :: js => (getAll s js).map (EArg.other :: ·)
+  | some j :: js => match s.get j, getAll s js with
+    | some it, some rest => some (EArg.iter it :: rest)
     | _, _ => none
 
 /-- one statement of an iterator program: returns the result line -/
@@ -505,12 +560,22 @@ def stepIter (s : ISt) (op : IOp) : String × ISt :=
     | .other => (errLine .runtime, s)
   | .zip k js => withIt k fun it =>
     match getAll s js with
-    | some others => ("ok", (js.foldl (fun s j => s.del j) s).put k (Iter.zip (Multi.ofList (it :: others))))
+    | some args =>
+      (match it.zipNew args with
+       | .ok z => ("ok", (js.filterMap id |>.foldl (fun s j => s.del j) s).put k z)
+       | .error c => (errLine c, s))
     | none => ("bad-var", s)
   | .chain k js => withIt k fun it =>
     match getAll s js with
-    | some others => ("ok", (js.foldl (fun s j => s.del j) s).put k (Iter.chain (Multi.ofList (it :: others))))
+    | some args =>
+      (match it.chainNew args with
+       | .ok z => ("ok", (js.filterMap id |>.foldl (fun s j => s.del j) s).put k z)
+       | .error c => (errLine c, s))
     | none => ("bad-var", s)
+  | .badCollect asTuple =>
+    match collectArg (EArg.other : EArg Val World ErrClass) s.w with
+    | none => (errLine .runtime, s)
+    | some r => (res r.res (fun xs => showTop (if asTuple then Val.tup xs else Val.list xs)), s)
   | .next k => withIt k fun it =>
     let r := it.step s.w
     (match r.1 with | .ok b => (if b then "true" else "false") | .err c => errLine c,
